@@ -31,7 +31,7 @@ CHECKS = {
              "one real sync per case; non-trivial = at least one object present in the cluster; every fifth non-trivial case is also run after a second controller on the same parent and child resources was started and stopped again (the informers this controller lists from must survive); role 'orphan in the cache, adopted by another parent on the server' (the adoption is refused; the object must never be shown to the hook); selector kinds: explicit matchLabels, generated, and negative-only (tier NotIn [canary]: selects objects without labels)",
         units=[
             dict(pkg=COMPOSITE, test="TestVerifC03", shards=dict(quick=8, thorough=16), budget=dict(quick=300, thorough=3000)),
-            dict(pkg=DECORATOR, test="TestVerifC03", shards=dict(quick=4, thorough=16), budget=dict(quick=300, thorough=1500)),
+            dict(pkg=DECORATOR, test="TestVerifC03", shards=dict(quick=4, thorough=16), budget=dict(quick=300, thorough=3000)),
         ],
         assumptions=SIM_ASSUMPTIONS,
     ),
